@@ -129,6 +129,10 @@ theorem tail_exact_uniform_posDef {d : ℕ} [NeZero d] (A : Matrix (Fin d) (Fin 
         = ENNReal.ofReal (1 - Quad.cdf (approxDist b (hessEigs hA.1.eigenvalues) (boundsList lo hi)) y) :=
   Opda.ExpVol.tail_exact_uniform_posDef A hA x₀ b lo hi hbox y hya hyb hin
 
+/-- "with `b` the maximum of `f`": the objective never exceeds `b` and attains it at `x₀` -/
+theorem b_is_the_maximum {d : ℕ} (A : Matrix (Fin d) (Fin d) ℝ) (hA : A.PosDef) (x₀ : Fin d → ℝ) (b : ℝ) :
+    (∀ x, quadObjective A x₀ b x ≤ b) ∧ quadObjective A x₀ b x₀ = b := quadObjective_max A hA x₀ b
+
 /-- the level ellipsoid at the returned `a` has exactly the volume of the box -/
 theorem level_a_fills_box {d : ℕ} [NeZero d] (Q : Matrix (Fin d) (Fin d) ℝ) (hQ : Qᵀ * Q = 1) (μ : Fin d → ℝ)
     (hμ : ∀ i, 0 < μ i) (x₀ : Fin d → ℝ) (b : ℝ) (lo hi : Fin d → ℝ) (hbox : ∀ i, lo i < hi i) :
